@@ -406,6 +406,21 @@ def fixed_point_hypothesis(st, tree, out):
             else "idempotent_by_oracle_only")
 
 
+def classify_retok(ans, want, fmt_agreed, verdict):
+    """What a `RETOK` answer means.  `fmt_agreed`: the `FMT` op of the same case agreed byte for
+    byte (model and real formatter produce the same text); `verdict`: the spec oracle's verdict on
+    the real code (only computed when the answers differ)."""
+    if ans == want:
+        return "applies"
+    if ans == "hyp-fails":
+        return "hyp-fails"
+    if verdict != "ok":
+        return "violation-input"
+    if fmt_agreed:
+        return "tokenizer-model"
+    return "violation-correspondence"
+
+
 # ----------------------------------------------------------------- one case
 class State:
     def __init__(self, chk, tier):
@@ -1055,29 +1070,43 @@ def run(tier):
         answers = model.ask(lines, timeout=1800)
         dis = 0
         retok = {"retokenize_ops": 0, "retokenize_theorem_applies": 0, "retokenize_hypothesis_fails": 0,
-                 "retokenize_disagrees": 0}
+                 "retokenize_disagrees": 0, "retokenize_tokenizer_model_differs": 0}
+        fmt_agreed = {}
         for (op, want, text, k), ans in zip(st.model_ops, answers):
+            if op.startswith("FMT "):
+                fmt_agreed[(text, k)] = (ans == want)
             if op.startswith("RETOK "):
                 retok["retokenize_ops"] += 1
-                if ans == want:
+                verdict = detail = None
+                if ans != want and ans != "hyp-fails":
+                    if retok["retokenize_disagrees"] + retok["retokenize_tokenizer_model_differs"] >= 20:
+                        # enough classified ones (each costs a run of the oracle): count only
+                        retok["retokenize_disagrees_unclassified"] = retok.get("retokenize_disagrees_unclassified", 0) + 1
+                        continue
+                    toks, tree = parse(text)
+                    verdict, detail, _ = spec_check(text, toks, tree, k)
+                cls = classify_retok(ans, want, fmt_agreed.get((text, k), False), verdict)
+                if cls == "applies":
                     retok["retokenize_theorem_applies"] += 1
-                    continue
-                if ans == "hyp-fails":
+                elif cls == "hyp-fails":
                     # the hypotheses of the theorem do not hold on the model's rows: no verdict (the
                     # oracle has re-tokenized the real output anyway)
                     retok["retokenize_hypothesis_fails"] += 1
-                    continue
-                retok["retokenize_disagrees"] += 1
-                dis += 1
-                if dis <= 5:
-                    toks, tree = parse(text)
-                    verdict, detail, _ = spec_check(text, toks, tree, k)
-                    chk.violation("input" if verdict != "ok" else "correspondence", {
-                        "input": text, "indent_width": k, "model": ans[:400], "observed": want[:400],
-                        "oracle_on_real_code": "%s: %s" % (verdict, detail),
-                        "theorem_or_correspondence": "model_c11 RETOK (retokTree: C11_retokenize_checked) vs "
-                                                     "tokenizer.tokenize(format_emboss_parse_tree(...))"},
-                        found_input=(verdict != "ok"))
+                elif cls == "tokenizer-model":
+                    # same formatted text (the FMT op of this case agreed byte for byte), the property
+                    # holds on the real code, only the tokenizer MODEL cuts the text differently from the
+                    # real tokenizer: C10's check owns that correspondence (and reports it with an input)
+                    retok["retokenize_tokenizer_model_differs"] += 1
+                else:
+                    retok["retokenize_disagrees"] += 1
+                    dis += 1
+                    if dis <= 5:
+                        chk.violation("input" if cls == "violation-input" else "correspondence", {
+                            "input": text, "indent_width": k, "model": ans[:400], "observed": want[:400],
+                            "oracle_on_real_code": "%s: %s" % (verdict, detail),
+                            "theorem_or_correspondence": "model_c11 RETOK (retokTree: C11_retokenize_checked) vs "
+                                                         "tokenizer.tokenize(format_emboss_parse_tree(...))"},
+                            found_input=(cls == "violation-input"))
                 continue
             if ans != want:
                 dis += 1
